@@ -641,8 +641,10 @@ class _Grouper(AsyncIterator[T_co], Generic[R, T_co]):
             raise StopAsyncIteration
         await state.maybe_step()
         # the step advanced the iterator to another group
-        # (like itertools, ask the key of this group whether it equals the new one)
-        if not self._target_key == state.current_key:
+        # (like itertools, ask the key of this group whether it equals the new one;
+        # a key is always in its own group, even if it is not equal to itself like NaN)
+        target_key, current_key = self._target_key, state.current_key
+        if not (target_key is current_key or target_key == current_key):
             raise StopAsyncIteration
         return state.consume_value()
 
@@ -709,7 +711,8 @@ class GroupBy(AsyncIterator[Tuple[R, AsyncIterator[T_co]]], Generic[R, T_co]):
             pass
         else:
             # scan to the next group
-            while target_key == state.current_key:
+            # (a key is always in its own group, even if it is not equal to itself like NaN)
+            while target_key is state.current_key or target_key == state.current_key:
                 await state.step()
 
         state.target_key = current_key = state.current_key
